@@ -82,6 +82,10 @@ static size_t s_rem(void) {
     return aws_cbor_decoder_get_remaining_length(s_dec);
 }
 
+/* every decoder entry point goes through this: a stale aws_last_error() from an earlier call must not pass for the
+ * error of this one */
+#define DEC_CALL(expr) (aws_reset_error(), (expr))
+
 static void s_err(void) {
     if (aws_last_error() != AWS_ERROR_CBOR_UNEXPECTED_TYPE) {
         s_sticky = true;
@@ -119,16 +123,16 @@ static bool s_pop(enum aws_cbor_type t) {
     bool bv = false;
     struct aws_byte_cursor c = {0};
     switch (t) {
-        case AWS_CBOR_TYPE_UINT: rc = aws_cbor_decoder_pop_next_unsigned_int_val(s_dec, &v); break;
-        case AWS_CBOR_TYPE_NEGINT: rc = aws_cbor_decoder_pop_next_negative_int_val(s_dec, &v); break;
-        case AWS_CBOR_TYPE_FLOAT: rc = aws_cbor_decoder_pop_next_float_val(s_dec, &dv); break;
-        case AWS_CBOR_TYPE_BYTES: rc = aws_cbor_decoder_pop_next_bytes_val(s_dec, &c); break;
-        case AWS_CBOR_TYPE_TEXT: rc = aws_cbor_decoder_pop_next_text_val(s_dec, &c); break;
-        case AWS_CBOR_TYPE_ARRAY_START: rc = aws_cbor_decoder_pop_next_array_start(s_dec, &v); break;
-        case AWS_CBOR_TYPE_MAP_START: rc = aws_cbor_decoder_pop_next_map_start(s_dec, &v); break;
-        case AWS_CBOR_TYPE_TAG: rc = aws_cbor_decoder_pop_next_tag_val(s_dec, &v); break;
-        case AWS_CBOR_TYPE_BOOL: rc = aws_cbor_decoder_pop_next_boolean_val(s_dec, &bv); break;
-        default: rc = aws_cbor_decoder_consume_next_single_element(s_dec); break;
+        case AWS_CBOR_TYPE_UINT: rc = DEC_CALL(aws_cbor_decoder_pop_next_unsigned_int_val(s_dec, &v)); break;
+        case AWS_CBOR_TYPE_NEGINT: rc = DEC_CALL(aws_cbor_decoder_pop_next_negative_int_val(s_dec, &v)); break;
+        case AWS_CBOR_TYPE_FLOAT: rc = DEC_CALL(aws_cbor_decoder_pop_next_float_val(s_dec, &dv)); break;
+        case AWS_CBOR_TYPE_BYTES: rc = DEC_CALL(aws_cbor_decoder_pop_next_bytes_val(s_dec, &c)); break;
+        case AWS_CBOR_TYPE_TEXT: rc = DEC_CALL(aws_cbor_decoder_pop_next_text_val(s_dec, &c)); break;
+        case AWS_CBOR_TYPE_ARRAY_START: rc = DEC_CALL(aws_cbor_decoder_pop_next_array_start(s_dec, &v)); break;
+        case AWS_CBOR_TYPE_MAP_START: rc = DEC_CALL(aws_cbor_decoder_pop_next_map_start(s_dec, &v)); break;
+        case AWS_CBOR_TYPE_TAG: rc = DEC_CALL(aws_cbor_decoder_pop_next_tag_val(s_dec, &v)); break;
+        case AWS_CBOR_TYPE_BOOL: rc = DEC_CALL(aws_cbor_decoder_pop_next_boolean_val(s_dec, &bv)); break;
+        default: rc = DEC_CALL(aws_cbor_decoder_consume_next_single_element(s_dec)); break;
     }
     if (rc != AWS_OP_SUCCESS) {
         if (aws_last_error() == AWS_ERROR_CBOR_UNEXPECTED_TYPE) {
@@ -177,7 +181,7 @@ static void s_all(void) {
             return;
         }
         enum aws_cbor_type t = AWS_CBOR_TYPE_UNKNOWN;
-        if (aws_cbor_decoder_peek_type(s_dec, &t)) {
+        if (DEC_CALL(aws_cbor_decoder_peek_type(s_dec, &t))) {
             s_err();
             return;
         }
@@ -315,7 +319,7 @@ int main(void) {
             s_all();
         } else if (!strcmp(op, "peek") && n == 1) {
             enum aws_cbor_type ty = AWS_CBOR_TYPE_UNKNOWN;
-            if (aws_cbor_decoder_peek_type(s_dec, &ty)) {
+            if (DEC_CALL(aws_cbor_decoder_peek_type(s_dec, &ty))) {
                 s_err();
             } else {
                 s_cached = true;
@@ -329,14 +333,14 @@ int main(void) {
                 printf("bad-op\n");
             }
         } else if (!strcmp(op, "consume") && n == 1) {
-            if (aws_cbor_decoder_consume_next_whole_data_item(s_dec)) {
+            if (DEC_CALL(aws_cbor_decoder_consume_next_whole_data_item(s_dec))) {
                 s_err();
             } else {
                 s_cached = false;
                 printf("%s consume OK rem=%zu\n", s_cls(), s_rem());
             }
         } else if (!strcmp(op, "skip") && n == 1) {
-            if (aws_cbor_decoder_consume_next_single_element(s_dec)) {
+            if (DEC_CALL(aws_cbor_decoder_consume_next_single_element(s_dec))) {
                 s_err();
             } else {
                 s_cached = false;
